@@ -289,6 +289,8 @@ def r_strat(ctx, view):
                 d = strip(vp.operand(f, t["discr"]))
                 if d[0] == "binop" and d[1] == "Eq" and component(d[2]) and component(d[2])[0] == "size" and param_index(component(d[2])[1]) == 2 and const_int(strip(d[3])) == 0:
                     stop.add((bi, t["otherwise"]))
+                if d[0] == "call" and d[1].split("::")[-1] == "is_empty" and d[2] and param_index(d[2][0]) == 2:
+                    stop.add((bi, t["otherwise"]))
         esc = f.cfg.escape_path(0, set(dr), stop_edges=stop)
         okd = esc is None
     ctx.ob("R-STRAT", "Store::append:other-left-empty", okd, f.loc(),
@@ -544,7 +546,7 @@ def r_side(ctx, view):
             okp = False
             for b2 in pushes:
                 a = strip(vp.operand(f, f.term(b2)["args"][1]))
-                okp = okp or (a[0] == "field" and a[2] in (0, "0") and any(x[0] == "downcast" and x[2] == "Some" for x in walk(a)) and any(
+                okp = okp or (a[0] == "field" and a[2] in (0, "0") and any(x[0] in ("some",) or (x[0] == "downcast" and x[2] == "Some") for x in walk(a)) and any(
                     x[0] == "call" and x[3] == (f.key, pb) for x in walk(a)))
             # every iteration that got Some pushes: from the Some edge to the back edge passes a push
             exits_ok = True
